@@ -379,6 +379,13 @@ var reActions = []string{"Send", "Close(false)", "Close(true)"}
 // runReentrancy registers a listener on event that performs action on the session once,
 // triggers the event, and waits (real time) for the goroutine that emitted it to come back.
 func runReentrancy(event, action, transport string, late bool) (key, msg string, reached bool) {
+	return runReentrancyVariant(event, action, transport, late, false)
+}
+
+// runReentrancyVariant: with probing, an upgrade candidate has sent its probe and been answered
+// (the session's forced-poll interval is ticking every 100 ms) and the listener's action comes
+// only after 350 ms, i.e. with several ticks of that interval due while the listener still runs.
+func runReentrancyVariant(event, action, transport string, late, probing bool) (key, msg string, reached bool) {
 	so := &config.ServerOptions{}
 	so.SetPingInterval(time.Hour)
 	so.SetPingTimeout(time.Hour)
@@ -394,6 +401,9 @@ func runReentrancy(event, action, transport string, late bool) (key, msg string,
 			// not at once: by now the client has received what was sent and has polled again (or
 			// written its next frame), so the transport is in its "request pending" state
 			time.Sleep(30 * time.Millisecond)
+		}
+		if probing {
+			time.Sleep(350 * time.Millisecond)
 		}
 		switch action {
 		case "Send":
@@ -462,6 +472,18 @@ func runReentrancy(event, action, transport string, late bool) (key, msg string,
 	}
 	cl.StartReader()
 	time.Sleep(5 * time.Millisecond)
+	if probing {
+		cand := w.Candidate(sock.Id(), 4)
+		if e := cand.DialCandidateWS(); e != nil {
+			return "", "", false
+		}
+		cand.WSWriteRaw(false, []byte("2probe"))
+		cand.WS.SetReadDeadline(time.Now().Add(3 * time.Second))
+		if _, d, e := cand.WS.ReadMessage(); e != nil || string(d) != "3probe" {
+			return "", "", false
+		}
+		time.Sleep(10 * time.Millisecond)
+	}
 	trigger := func() {
 		switch event {
 		case "packetCreate", "flush", "drain", "srv:flush", "srv:drain":
@@ -493,7 +515,7 @@ func runReentrancy(event, action, transport string, late bool) (key, msg string,
 		if proof == "" {
 			// not waiting for a lock: is it at a standstill?  35 s is longer than every timer of the
 			// scenario (upgrade timeout 2 s, the transports' 30 s close timeout; heartbeats are off)
-			if st := rig.Standstill("runReentrancy.func1", 35*time.Second); st != "" && !returned.Load() {
+			if st := rig.Standstill("runReentrancyVariant.func1", 35*time.Second); st != "" && !returned.Load() {
 				cl.Stop()
 				return fmt.Sprintf("c18-listener-reentrancy-deadlock:%s:%s", event, action), fmt.Sprintf("a %s listener calling %s on a %s session never returned: 38 s later its goroutine is blocked at the very same place inside the library while the process sits idle: %s", event, action, transport, st), true
 			}
@@ -517,7 +539,7 @@ func reentrancyProof() string {
 	buf := make([]byte, 1<<20)
 	n := runtime.Stack(buf, true)
 	for _, g := range strings.Split(string(buf[:n]), "\n\n") {
-		if strings.Contains(g, "runReentrancy.func1") && (strings.Contains(g, "sync.(*Mutex).Lock") || strings.Contains(g, "sync.(*RWMutex).Lock") || strings.Contains(g, "sync.(*RWMutex).RLock")) {
+		if strings.Contains(g, "runReentrancyVariant.func1") && (strings.Contains(g, "sync.(*Mutex).Lock") || strings.Contains(g, "sync.(*RWMutex).Lock") || strings.Contains(g, "sync.(*RWMutex).RLock")) {
 			return rig.TopFrames(g, 14)
 		}
 	}
@@ -527,7 +549,7 @@ func reentrancyProof() string {
 func TestC18(t *testing.T) {
 	r := rep.New(t, "C18")
 	defer r.Flush()
-	r.Rule("virtual-time sessions (polling, WebSocket, WebTransport; 1-2 sender goroutines; 2-15 sends with and without callbacks, bursts and gaps; optional upgrade; optional Close at a chosen send) monitored through the tap log: per hand-off exactly flush, server flush (same batch), drain, server drain in order; packetCreate once per accepted Send and before the packet is flushed; no packet flushed twice; conservation on open sessions; callbacks at most once, after their batch's flush event, in send order, never after close; plus the re-entrancy matrix {packetCreate, flush, drain, message, heartbeat, close, upgrade, server flush/drain/connection, send callback} x {Send, Close(false), Close(true)} x {polling, WebSocket} on real time with a goroutine-dump proof rule; distinct = case signature / matrix cell")
+	r.Rule("virtual-time sessions (polling, WebSocket, WebTransport; 1-2 sender goroutines; 2-15 sends with and without callbacks, bursts and gaps; optional upgrade; optional Close at a chosen send) monitored through the tap log: per hand-off exactly flush, server flush (same batch), drain, server drain in order; packetCreate once per accepted Send and before the packet is flushed; no packet flushed twice; conservation on open sessions; callbacks at most once, after their batch's flush event, in send order, never after close; plus the re-entrancy matrix {packetCreate, flush, drain, message, heartbeat, close, upgrade, server flush/drain/connection, send callback} x {Send, Close(false), Close(true)} x {polling, WebSocket} on real time with a goroutine-dump proof rule, also while an upgrade candidate is being probed and the listener runs for 350 ms (several ticks of the forced-poll interval fall due meanwhile); distinct = case signature / matrix cell")
 	r.Assume("a send callback that never runs on an open session is recorded, not judged: the statement bounds callbacks from above (at most once, not before, in order)")
 	n := r.N(2500, 200000)
 	for i := 0; i < n; i++ {
@@ -558,6 +580,29 @@ func TestC18(t *testing.T) {
 			}
 			if key != "" {
 				r.Violation(key, msg, map[string]string{"lane": "drain-across-upgrade"})
+			}
+		}
+	}
+	pc := 0
+	for _, ev := range []string{"flush", "drain", "srv:flush", "srv:drain", "callback", "packetCreate"} {
+		for _, ac := range reActions {
+			idx := pc
+			pc++
+			if !r.Mine(idx) || !r.Thorough() && (idx+int(r.Seed))%3 != 0 {
+				continue // quick: a third of these slow cells per run (each takes half a second)
+			}
+			id := fmt.Sprintf("reentrancy-probing-%s-%s", ev, ac)
+			r.Begin(id, map[string]any{"event": ev, "action": ac, "transport": "polling", "probing": true})
+			key, msg, reached := runReentrancyVariant(ev, ac, "polling", false, true)
+			r.End(id)
+			r.Case(fmt.Sprintf("re/polling+probe/%s/%s", ev, ac), reached)
+			if reached {
+				r.Obs("reentrancy_cells_exercised_while_an_upgrade_is_probed", 1)
+			}
+			if key != "" {
+				r.Violation(key, msg, map[string]any{"event": ev, "action": ac, "transport": "polling", "upgrade_probe_in_progress": true, "listener_runs_for_ms": 350})
+			} else if msg != "" {
+				r.Inconclusive(msg)
 			}
 		}
 	}
